@@ -1,0 +1,11 @@
+//go:build verif
+
+// Verification hook (build tag verif). Adds an exported accessor to an existing
+// unexported field; it changes no behaviour and is absent from normal builds.
+
+package unary
+
+import "github.com/synnaxlabs/cesium/internal/domain"
+
+// VerifDomain returns the domain database that stores this channel's data.
+func (db *DB) VerifDomain() *domain.DB { return db.domain }
